@@ -270,6 +270,11 @@ def check(ctx):
     check_formulas(ctx)
     for key in ('VolumeSSASimulator', 'DelayVolumeSSASimulator'):
         check_loop(ctx, key)
+    from .c05 import RACE_WHAT
+    for key in ('VolumeSSASimulator', 'DelayVolumeSSASimulator'):
+        sl_ = simloop.SimLoop(ctx, key)
+        pr_, n_ = simloop.event_race(sl_)
+        ctx.ob('R11.2-event-race', key, not pr_, sl_.where, RACE_WHAT % n_, '; '.join(pr_[:2]))
     check_growth(ctx)
     ctx.floor('R11.1-volume-formula', 16)
     ctx.floor('R11.2-pairing', 2)
